@@ -65,6 +65,10 @@ CLAIMED = {
   "Deductive proof of totality and progress of the lexer: for every source string, next() and every scanning helper it reaches (read, peek, match, matchOneOf, matchWhile, matchWithUnderscores, matchIdentTail, nonWhiteRemaining, whitespace, lineComment, spanComment, rawString, quotedString, doesc, number, identifier, Next) never index or slice out of range (527 obligations), keep 0 <= position <= len(source), report Item.Pos = starting position, return Eof exactly when called at the end of the source and otherwise strictly advance the position - so token positions strictly increase and scanning terminates; every loop has a proved variant.",
   "Function-valued parameters (IsDigit, IsHexDigit, isIdentChar) are modelled as pure predicates that are false for 0 and each call site is obliged to pass such a function; the lexer's keyword callback and intern.String/strings.ReplaceAll are assumed effect-free. Sources are assumed shorter than 2^31 bytes (Item.Pos is int32). NOT covered: the parser (recursive descent reporting errors by panic), the 'tokens tile the source' text equality for processed tokens, Ahead/AheadSkip buffering.",
   "DESIGN.md §4 C32"),
+ "C08": (
+  "Deductive proof of the two foreign key refusal decisions over an abstraction of the index lookups: if UpdateTran.fkeyDeleteBlock returns normally then EVERY foreign key that points at the index either cascades the kind of change being made (delete / key update) or has no referencing source rows (loop invariant over FkToHere, quantified post-condition taken from the property statement); if fkeyOutputBlock returns normally then the index has no foreign key, or the key value is empty, or the target row exists.",
+  "Scope: the block/allow decision logic only. fkeyDeleteExists/fkeyOutputExists (the index range lookups, rangeEnd) are abstracted by uninterpreted predicates through assumed contracts; Spec.Key/Trunc/Encodes, ixkey.Encode, Meta.GetRoSchema are assumed effect-free; run-time panic freedom is not claimed here (contract mode 'nosafety': bounds depend on schema metadata consistency, C21). NOT covered: that Delete passes CascadeDeletes and update passes CascadeUpdates at the two call sites (functions with defer/recover, outside the subset), the cascade loops (fkeyDeleteCascade/fkeyUpdateCascade), rangeEnd, createFkeys/linkFkeys, and the committed-state invariant under concurrency (C01/C07). One genuine defect found by the loop invariant obligation was fixed (cascade update let referenced rows be deleted).",
+  "DESIGN.md §0.3 C08"),
  "C13": (
   "Deductive proof about packed scalar values: (1) the fixed-size Encoder/Decoder primitives of util/pack (Put1/2/4, Put, PutStr, Uint16/Uint32/Int32 and their decoders) against exact byte-level contracts incl. capacity, frame and big-endian round-trip/order lemmas; (2) SuDnum.PackSize equals the number of bytes SuDnum.Pack writes (no buffer overrun), Pack writes exactly tag, exponent byte and the base-100 digit pairs of the coefficient with trailing zero pairs dropped and every byte complemented for negative numbers (10 byte-level post-conditions), unpackDnum rebuilds sign/exponent/coefficient from those bytes, with lemmas that the pairs are in 0..99, recombine to the coefficient and that dropped pairs are zero (so unpack inverts pack); (3) ORDER: three lemmas over the proved byte functions show that the byte order of packed decimals equals the decimal order for all non-negative pairs, all mixed-sign pairs and all negative pairs except the prefix class below; (4) packSizeInt against a digit-level definition for all int64 (three loops completely unrolled, unwinding obligations discharged); (5) SuBool, SuStr, SuDate, SuTimestamp Pack/PackSize byte-exact, UnpackDate/UnpackTimestamp inverse on those bytes.",
   "KNOWN FINDING (genuine defect, not repaired, see known_findings.jsonl and findings/C13-negative-prefix-order): two negative numbers whose digit-pair strings are a proper prefix of one another (-12 vs -12.5, -1200 vs -1234) pack in the reverse of their value order; indexes on negative numbers are mis-sorted and range queries return wrong rows. NOT covered: packInt's bytes (only its size; the obligations did not discharge), hence 'equal scalars pack to identical bytes' between SuInt64 and SuDnum is not proved; unpackInt/intable; objects/records (nesting, PackSize2 stack); the value-level composition Unpack(Pack(v)).Equal(v) is argued from the byte-level contracts, not stated as one theorem. Sequential semantics; hacks.BStoS assumed.",
